@@ -106,6 +106,26 @@ theorem StackTable.indexFor_stable (t : StackTable) (pre : Option Nat) (frame nF
   | some s => rfl
   | none => exact walk_append _ _ _ _ a1 a3 _ i hi
 
+/-- every existing row has a denotation -/
+theorem walk_isSome (t : StackTable) (nFrames : Nat) (h : StInv nFrames t) :
+    ∀ (k : Nat), k < t.prefixes.length → (walk t.prefixes t.frames (k + 1) k).isSome = true := by
+  obtain ⟨a1, _, a3, _, _⟩ := h
+  intro k
+  induction k using Nat.strongRecOn with
+  | _ k ihk =>
+    intro hk
+    have hfk : t.frames[k]? = some t.frames[k] := List.getElem?_eq_getElem (by omega)
+    have hpk : t.prefixes[k]? = some t.prefixes[k] := List.getElem?_eq_getElem hk
+    simp only [walk, hfk, hpk]
+    cases hq : t.prefixes[k] with
+    | none => rfl
+    | some q =>
+      simp only
+      have hqk : q < k := a3 k q (by rw [hpk, hq])
+      have := ihk q hqk (by omega)
+      rw [walk_fuel _ _ a3 (q + 1) k q (by omega) hqk] at this
+      simpa using this
+
 /-- different rows denote different frame lists: each call stack is interned exactly once -/
 theorem walk_injective (t : StackTable) (nFrames : Nat) (h : StInv nFrames t) :
     ∀ (i j : Nat), i < t.prefixes.length → j < t.prefixes.length →
